@@ -40,10 +40,16 @@ func main() {
 	case "harness":
 		os.Exit(cmdHarness(os.Args[2:]))
 	default:
+		if f, ok := extraCommands[os.Args[1]]; ok {
+			os.Exit(f(os.Args[2:]))
+		}
 		fmt.Fprintln(os.Stderr, "unknown command")
 		os.Exit(2)
 	}
 }
+
+// extraCommands lets optional front ends (build tag llir) register sub-commands.
+var extraCommands = map[string]func(args []string) int{}
 
 func loadSpecs() (map[string]*PropertySpec, error) {
 	b, err := os.ReadFile(filepath.Join(harnessDir(), "checks.json"))
